@@ -134,6 +134,10 @@ def run(facts, rep, events, model):
                     continue
                 ok_edge = [tb for (v, tb) in t["vals"] if v == "0"]
                 others = [tb for (v, tb) in t["vals"] if v != "0"] + [t["else"]]
+                if not ok_edge and [v for (v, tb) in t["vals"]] == ["1"]:
+                    # `if let Err(e) = ..`: the Ok arm is the otherwise edge
+                    ok_edge = [t["else"]]
+                    others = [tb for (v, tb) in t["vals"]]
                 if ok_edge and lk.dominates(ok_edge[0], ab) and ab not in lk.reachable([o for o in others if o != ok_edge[0]]):
                     good = True
             ok = ok and good
